@@ -8,7 +8,7 @@
     and no visited definition went through a float (non-integer power) — the property's
     "rational units".  [mprod (gscale r) F] is the numeric value of [F]. *)
 From PintV Require Import Model.UC Model.Eval Model.Registry.
-From PintV Require Import Proofs.UCProofs Proofs.RegistryProofs Proofs.RootProofs Proofs.FactorProofs.
+From PintV Require Import Proofs.UCProofs Proofs.RegistryProofs Proofs.RootProofs Proofs.FactorProofs Proofs.PrefixProofs.
 From PintV Require Import Gen.DefaultDefs Gen.DefaultReg.
 Open Scope string_scope.
 
@@ -64,6 +64,23 @@ Theorem C02_conv_path_independent r a b c Fa Ba Fb Bb Fc Bc d :
   ∃ x y z e1 e2 e3, conv_factor r a b = Ok (Some x, e1) ∧ conv_factor r b c = Ok (Some y, e2)
                     ∧ conv_factor r a c = Ok (Some z, e3) ∧ (x * y = z)%Qc.
 Proof. exact (conv_factor_path r a b c Fa Ba Fb Bb Fc Bc d). Qed.
+
+(** a prefix is applied exactly once: the string p+u (not a written definition, read as prefix p
+    and unit u, u multiplicative) expands to the base units of u and to the factor of u times the
+    prefix value; more recursion fuel never changes a defined expansion *)
+Theorem C02_prefix_once r p u pd ud sym F B :
+  reg_nz r →
+  r_units r !! (p ++ u) = None →
+  (∃ l, parse_unit_name r (p ++ u) = (p, u) :: l) →
+  String.eqb p "" = false →
+  r_prefixes r !! p = Some pd → r_units r !! u = Some ud → u_multiplicative ud = true →
+  get_symbol r (p ++ u) = Ok sym →
+  rrow r (p ++ u) = Some (F, B) →
+  ∃ Fu, rrow r u = Some (Fu, B) ∧
+        (integral Fu → mprod (gscale r) F = (p_val pd * mprod (gscale r) Fu)%Qc).
+Proof. exact (prefix_factor r p u pd ud sym F B). Qed.
+Theorem C02_more_fuel_same_expansion f r k x : root_row f r k = Some x → root_row (S f) r k = Some x.
+Proof. exact (root_row_mono f r k x). Qed.
 
 (** the side conditions are decidable and hold for the registry regenerated from /repo
     (finite checks by computation) *)
